@@ -62,6 +62,15 @@ def Net.contains (n : Net) (ip : IP) : Bool :=
   else if !n.v6 then false
   else if x.length != 16 then false else eqUnder n.bits 0 nn x
 
+/-- `ip.To16()`: a 4-byte address becomes `::ffff:a.b.c.d`. -/
+def to16 (a : IP) : IP := if a.length == 4 then [0, 0, 0, 0, 0, 0, 0, 0, 0, 0, 255, 255] ++ a else a
+
+/-- `prefixContains`: containment on the 16-byte forms (no IPv4 un-mapping). -/
+def prefixContains (n : Net) (addr : IP) : Bool :=
+  let ip := to16 addr
+  let base := to16 n.ip
+  if ip.length != 16 || base.length != 16 || !n.v6 then false else eqUnder n.bits 0 base ip
+
 /-! ### synth.go -/
 
 inductive PErr | ok | v4 | len | byte8
@@ -93,7 +102,7 @@ def embedIPv4 (pip : IP) (bits : Nat) (v : IP) : IP :=
 
 /-- `extractIPv4` on a 16-byte address. -/
 def extractIPv4 (pip : IP) (bits : Nat) (a : IP) : Option IP :=
-  if !(Net.contains ⟨pip, bits, true⟩ a) then none
+  if !(prefixContains ⟨pip, bits, true⟩ a) then none
   else if !isLegal bits then none
   else match bits with
     | 32 => if !allZero (a.drop 8) then none else some [bAt a 4, bAt a 5, bAt a 6, bAt a 7]
@@ -151,7 +160,7 @@ def labelNibble : Name → Option Nat
   | [c] => hexNibble c
   | _ => none
 
-def ip6ArpaSuffix : Name := ".ip6.arpa".toList
+def ip6ArpaSuffix : Name := ['.', 'i', 'p', '6', '.', 'a', 'r', 'p', 'a']
 
 /-- `parseIP6ArpaName`. -/
 def parseIP6ArpaName (qname : Name) : Option IP :=
@@ -280,6 +289,16 @@ structure RR where
   ip : IP := []
 deriving Repr, DecidableEq
 
+/-- provenance marks on the downstream reply: RFC 9520 cached-failure mark in
+`ResponseMeta`, request-local failure (attempt limit / any other). -/
+inductive Mark | none | cached | attempt | other
+deriving Repr, DecidableEq
+
+/-- outcome of `queryer.Query`: a response, a generic error, the resolution
+attempt limit, the recursion work limit, `(nil, nil)`, or no queryer wired. -/
+inductive AErr | none | generic | attempt | work | nilResp | noQueryer
+deriving Repr, DecidableEq
+
 /-- the downstream (upstream AAAA) reply reaching `responseWriter.WriteMsg`. -/
 structure Down where
   rcode : Nat
@@ -288,15 +307,14 @@ structure Down where
   opt : Bool
   hasQ : Bool
   edes : List Nat          -- EDE info codes in the OPT (only if `opt`)
-  mark : Char              -- n none, c cached-failure meta mark, a attempt-limit, l other request-local
+  mark : Mark
   ans : List RR
   soas : List (Nat × Nat)  -- (Hdr.Ttl, Minttl) of the SOA records in Authority, in order
 deriving Repr
 
-/-- what the internal queryer returns for the secondary lookup. `err`: n none,
-g generic error, a attempt limit, w work limit, x nil response, q no queryer. -/
+/-- what the internal queryer returns for the secondary lookup. -/
 structure AResp where
-  err : Char
+  err : AErr
   rcode : Nat
   ans : List RR
 deriving Repr
@@ -321,20 +339,20 @@ def isDNSSECFailure (m : Down) : Bool :=
 
 /-- `isCachedFailureResponse`. -/
 def isCachedFailureResponse (m : Down) : Bool :=
-  m.mark == 'c' || (m.rcode == 2 && m.opt && m.edes.contains 13)
+  m.mark == .cached || (m.rcode == 2 && m.opt && m.edes.contains 13)
 
-/-- `negativeAAAATTL`. -/
-def negativeAAAATTL (soas : List (Nat × Nat)) : Nat :=
+/-- `negativeAAAATTL`: `none` = no SOA in Authority. -/
+def negativeAAAATTL (soas : List (Nat × Nat)) : Option Nat :=
   match soas with
-  | [] => 0
-  | (ttl, mn) :: _ => if mn > 0 ∧ mn < ttl then mn else ttl
+  | [] => none
+  | (ttl, mn) :: _ => some (if mn < ttl then mn else ttl)
 
 def noSOATTLCeiling : Nat := 600
 def ptrSynthTTL : Nat := 600
 
 /-- the TTL choice in `synthesise`. -/
-def synthTTL (neg : Nat) (attls : List Nat) : Nat :=
-  attls.foldl (fun t a => if a < t then a else t) (if neg > 0 then neg else noSOATTLCeiling)
+def synthTTL (neg : Option Nat) (attls : List Nat) : Nat :=
+  attls.foldl (fun t a => if a < t then a else t) (neg.getD noSOATTLCeiling)
 
 /-- `splitChainAndA`. -/
 def chainOf (ans : List RR) : List RR := ans.filter fun r => r.kind == 'c' || r.kind == 'd'
@@ -359,7 +377,7 @@ def gate (c : Cfg) (q : Query) : Gate :=
 the address, extracts and is not excluded. -/
 def ptrV4 (c : Cfg) (addr : IP) : Option IP :=
   c.prefixes.findSome? fun p =>
-    if !p.net.contains addr then none else
+    if !prefixContains p.net addr then none else
     match extractIPv4 p.net.ip p.net.bits addr with
     | none => none
     | some v4 => if c.shouldExcludeAOnPrefix v4 p then none else some v4
@@ -383,7 +401,7 @@ def dispatch (c : Cfg) (q : Query) (m : Down) : Disp :=
   else if m.rcode == 3 then .passNX
   else if isDNSSECFailure m then .passDnssec
   else if isCachedFailureResponse m then .passCached
-  else if m.mark == 'a' || m.mark == 'l' then .passLocal
+  else if m.mark == .attempt || m.mark == .other then .passLocal
   else if m.rcode == 2 && q.workExhausted then .workFail
   else if m.rcode == 0 then
     let (_, had, kept, stripped) := filterUpstreamAAAA c m.ans
@@ -429,24 +447,27 @@ def passReply (m : Down) (aq : Nat := 0) : Reply :=
 message, `copied` says whether filtering made a copy. -/
 def synthesise (c : Cfg) (orig : Down) (copied : Bool) (a : AResp) : Reply :=
   let fallback (aq : Nat) : Reply :=
-    if copied then { passReply orig aq with kind := .filteredAll } else passReply orig aq
-  if a.err == 'q' then fallback 0
-  else if a.err == 'w' then { kind := .workFail, rcode := 2, aq := 1 }
-  else if a.err == 'a' then { kind := .attemptFail, rcode := 2, aq := 1 }
-  else if a.err == 'g' then fallback 1
-  else if a.err == 'x' then fallback 1
-  else if a.rcode != 0 then
-    { kind := .abasis, rcode := a.rcode, aq := 1, ede4 := ede4After orig, ans := chainOf a.ans }
-  else
-    let addrs := addrsOf a.ans
-    if addrs.isEmpty then
+    if copied then { passReply orig aq with kind := .filteredAll, ad := false, ede4 := ede4After orig }
+    else passReply orig aq
+  match a.err with
+  | .noQueryer => fallback 0
+  | .work => { kind := .workFail, rcode := 2, aq := 1 }
+  | .attempt => { kind := .attemptFail, rcode := 2, aq := 1 }
+  | .generic => fallback 1
+  | .nilResp => fallback 1
+  | .none =>
+    if a.rcode != 0 then
       { kind := .abasis, rcode := a.rcode, aq := 1, ede4 := ede4After orig, ans := chainOf a.ans }
     else
-      let ttl := synthTTL (negativeAAAATTL orig.soas) (addrs.map (·.ttl))
-      let chain := (chainOf a.ans).map fun r => if r.ttl > ttl then { r with ttl := ttl } else r
-      let syn := synthAAAA c addrs ttl
-      if syn.isEmpty then fallback 1
-      else { kind := .synth, rcode := 0, aq := 1, ede4 := ede4After orig, ans := chain ++ syn }
+      let addrs := addrsOf a.ans
+      if addrs.isEmpty then
+        { kind := .abasis, rcode := a.rcode, aq := 1, ede4 := ede4After orig, ans := chainOf a.ans }
+      else
+        let ttl := synthTTL (negativeAAAATTL orig.soas) (addrs.map (·.ttl))
+        let chain := (chainOf a.ans).map fun r => if r.ttl > ttl then { r with ttl := ttl } else r
+        let syn := synthAAAA c addrs ttl
+        if syn.isEmpty then fallback 1
+        else { kind := .synth, rcode := 0, aq := 1, ede4 := ede4After orig, ans := chain ++ syn }
 
 /-- `responseWriter.WriteMsg`. -/
 def writeMsg (c : Cfg) (q : Query) (m : Down) (a : AResp) : Reply :=
@@ -468,12 +489,14 @@ def writeMsg (c : Cfg) (q : Query) (m : Down) (a : AResp) : Reply :=
 def ptrReply (qtok : String) (v4 : IP) (a : AResp) : Reply :=
   let cname : RR := { kind := 'c', ttl := ptrSynthTTL, owner := qtok,
                       target := "x:" ++ String.ofList (inAddrArpa v4) }
-  if a.err == 'q' then { kind := .ptr, ans := [cname] }
-  else if a.err == 'w' then { kind := .workFail, rcode := 2, aq := 12 }
-  else if a.err == 'a' then { kind := .attemptFail, rcode := 2, aq := 12 }
-  else if a.err == 'n' && a.rcode == 0 then
-    { kind := .ptr, aq := 12, ans := cname :: a.ans.filter (·.kind == 'r') }
-  else { kind := .ptr, aq := 12, ans := [cname] }
+  match a.err with
+  | .noQueryer => { kind := .ptr, ans := [cname] }
+  | .work => { kind := .workFail, rcode := 2, aq := 12 }
+  | .attempt => { kind := .attemptFail, rcode := 2, aq := 12 }
+  | .none =>
+    if a.rcode == 0 then { kind := .ptr, aq := 12, ans := cname :: a.ans.filter (·.kind == 'r') }
+    else { kind := .ptr, aq := 12, ans := [cname] }
+  | _ => { kind := .ptr, aq := 12, ans := [cname] }
 
 /-- `DNS64.ServeDNS` in front of a scripted downstream handler (`down = none`:
 the handler writes nothing). -/
@@ -485,7 +508,7 @@ def serve (c : Cfg) (q : Query) (down : Option Down) (a : AResp) : Reply :=
   | .next => nextReply
   | .ptr =>
     let qn := canonical q.qname
-    if !hasSuffix qn ".ip6.arpa.".toList then nextReply else
+    if !hasSuffix qn (ip6ArpaSuffix ++ ['.']) then nextReply else
     match parseIP6ArpaName qn with
     | none => nextReply
     | some addr =>
